@@ -3,6 +3,9 @@
 package resharing
 
 import (
+	"context"
+
+	"github.com/binance-chain/tss-lib/ecdsa/keygen"
 	"github.com/binance-chain/tss-lib/tss"
 	"github.com/libp2p/go-libp2p/core/peer"
 )
@@ -16,4 +19,12 @@ func VerifSortParties(parties tss.SortedPartyIDs, oldParties tss.SortedPartyIDs)
 func (r *Resharing) VerifUnmarshallStartParams(b []byte) (int, []peer.ID, error) {
 	p, err := r.unmarshallStartParams(b)
 	return p.OldThreshold, p.OldSubset, err
+}
+
+// VerifProcessEnd runs the real processEndMessage with one refreshed key waiting on the end channel (what the library
+// delivers when the protocol completes): the share is handed to the process's storer.
+func (r *Resharing) VerifProcessEnd(key keygen.LocalPartySaveData) error {
+	endChn := make(chan keygen.LocalPartySaveData, 1)
+	endChn <- key
+	return r.processEndMessage(context.Background(), endChn)
 }
